@@ -31,6 +31,7 @@ type UnitSpec struct {
 	Paths      bool     `json:"paths,omitempty"`    // path mode (bounded lemmas): fork at branches, never merge
 	Ints       string   `json:"ints,omitempty"`     // "math": Go's int is a mathematical integer in this unit
 	Overflow   bool     `json:"overflow,omitempty"` // with ints=math: obligations that int arithmetic stays in 64 bits
+	Only        []string `json:"only,omitempty"`        // keep only obligations whose name contains one of these (others are listed as not checked)
 	Witness     string  `json:"witness,omitempty"`      // func units: file under /verif/witness with a scenario test
 	WitnessTest string  `json:"witness_test,omitempty"` // name of the test function in that file
 	Note       string   `json:"note,omitempty"`
@@ -220,6 +221,18 @@ func RunProperty(id, tier string) int {
 			udir := filepath.Join(work, sanitize(us.Func))
 			os.MkdirAll(udir, 0o755)
 			for _, o := range x.Obls {
+				if len(us.Only) > 0 && !o.Cover {
+					keep := false
+					for _, sub := range us.Only {
+						if strings.Contains(o.Name, sub) {
+							keep = true
+						}
+					}
+					if !keep {
+						notes.Bounds[fmt.Sprintf("%s: obligation %s generated but outside this check's scope (only %v)", us.Func, o.Name, us.Only)] = true
+						continue
+					}
+				}
 				r.results = append(r.results, prepare(x.C, o, udir))
 			}
 		}
@@ -425,7 +438,7 @@ func RunProperty(id, tier string) int {
 					}
 				}
 			}
-			if suffix != "" && r.spec.Kind == "func" && r.spec.Witness != "" && (o.Kind == "post" || o.Kind == "inv-step" || o.Kind == "frame") {
+			if suffix != "" && r.spec.Kind == "func" && r.spec.Witness != "" && (o.Kind == "post" || o.Kind == "inv-step" || o.Kind == "frame" || o.Kind == "nopanic") {
 				// the failed contract has a hand-written witness scenario: run it on the real code
 				ro := ReplayWitness(r.fn.Pkg.Pkg.Path(), r.spec.Witness, r.spec.WitnessTest, work)
 				payload["replay"] = ro
@@ -442,11 +455,11 @@ func RunProperty(id, tier string) int {
 	ev := &evidenceExtra{reports: reports, total: total, discharged: discharged, bounded: bounded, samples: samples, notes: notes, solverSecs: solverSecs, runs: runs}
 	writeEvidence(id, tier, seed, &spec, ev, vioLines, violations, wall, loadSecs, nil)
 	fmt.Printf("b6vc %s %s: %d obligations, %d discharged (%d under a stated bound), %d violations, %.1fs\n", id, tier, total, discharged, bounded, violations, wall)
+	if violations > 0 {
+		return 1 // a failed obligation explains an unreachable end of lemma (asserted facts are assumed afterwards)
+	}
 	if engineErrors > 0 {
 		return 2
-	}
-	if violations > 0 {
-		return 1
 	}
 	return 0
 }
